@@ -338,10 +338,12 @@ def write_evidence(rep: Report, tier: str, level: str, wall: float, viol: List[O
         "samples": samples,
         "exhaustive": True,
         "checker_cmd": f"./check {rep.pid} --tier {tier}",
-        "trusted_base": rep.trusted or [
+        "trusted_base": (rep.trusted or [
             "CPython ast module",
             "the mathematical lemmas named in DESIGN.md section 4 for this property",
-        ],
+        ]) + ["the loader's source normalisation (sa/canon.py): alpha-renaming of locals, inlining of helpers / temporaries / module constants the "
+              "reference tree does not have, import re-spelling, control-flow normal forms - each an equivalence-preserving rewrite with stated "
+              "side conditions (DESIGN.md 9.7); the rules judge the normalised program"],
         "explanation": "Static rule conformance. Decided: " + "; ".join(rep.decided)
                        + ". Declined (not decided by this check): " + "; ".join(rep.declined),
         "per_rule": per_rule,
@@ -349,6 +351,7 @@ def write_evidence(rep: Report, tier: str, level: str, wall: float, viol: List[O
         "analysed": rep.analysed,
         "repo_digest": repo.digest(),
         "modules_parsed": len(repo.modules),
+        "normalisations_applied": {k: {q: sorted(v)[:12] for q, v in fm.items()} for k, fm in getattr(repo, "renames", {}).items()},
         "informational": rep.info[:60],
         "known_findings": [
             {"key": o.key(), "what": e.get("what"), "id": e.get("id")} for o, e in known_hit
